@@ -1,6 +1,6 @@
 (* Correspondence and property predicates for the cases written by harness/cmd/h_adapt. *)
 From Coq Require Import String Ascii List Bool ZArith Arith.
-From NRI Require Import Base.Strs Base.Assoc Model.Types Model.Result Model.Generate Spec.Apply Spec.AbsLedger Spec.Updates Proofs.CombineWf Spec.GenSpec.
+From NRI Require Import Base.Strs Base.Assoc Model.Types Model.Result Model.Generate Spec.Apply Spec.AbsLedger Spec.Updates Spec.UpdateView Proofs.CombineWf Spec.GenSpec.
 Import ListNotations.
 Open Scope string_scope.
 Open Scope list_scope.
@@ -142,12 +142,13 @@ Definition holds_C04 (c : adapt_case) : bool :=
         | _ => false
         end)
   | RUpdate id req =>
-      (* I2: silent once an ignore-failure update was dropped among the plugins before position i
-         (judged on the prefix: the whole history may end in a hard conflict) *)
+      (* the requested resources overlaid with the own-container updates of the plugins before position i
+         that were not dropped (Spec/UpdateView.v); a dropped ignore-failure update contributes NOTHING to
+         what later plugins are shown, whatever fields it names.  Judged at every position, also after a
+         drop (own_overlay_nd = own_overlay when nothing was dropped: Proofs/UpdateViewProofs.v) *)
       views_ok 0 (ac_views c) (fun i v =>
-        some_dropped None (firstn i (ac_resps c)) ||
         match v with
-        | ShownResources x => res_obs_eqb x (own_overlay id req (firstn i (ac_resps c)))
+        | ShownResources x => res_obs_eqb x (own_overlay_nd id req (firstn i (ac_resps c)))
         | _ => false
         end)
   | RStop _ => true
